@@ -55,10 +55,10 @@ FLOORS = {
               "stress_entries_compared": 13000, "energy_identities_discriminating": 380,
               "average_entries_compared": 2000, "transpose_entries_compared": 50000,
               "thermal_rigid_modes_checked": 1400, "thermal_entries_compared": 6000},
-    "thorough": {"cases_held": 10000, "distinct_nontrivial": 5000, "strain_entries_compared": 1000000,
-                 "stress_entries_compared": 300000, "energy_identities_discriminating": 7000,
-                 "average_entries_compared": 50000, "transpose_entries_compared": 1000000,
-                 "thermal_rigid_modes_checked": 20000, "thermal_entries_compared": 100000},
+    "thorough": {"cases_held": 15000, "distinct_nontrivial": 11000, "strain_entries_compared": 5500000,
+                 "stress_entries_compared": 1800000, "energy_identities_discriminating": 12800,
+                 "average_entries_compared": 150000, "transpose_entries_compared": 1500000,
+                 "thermal_rigid_modes_checked": 38000, "thermal_entries_compared": 440000},
 }
 TIMEOUT_CASE = 120
 
@@ -97,7 +97,7 @@ def plan(tier, seed):
         return lst[(cnt[0] + int(r.integers(0, len(lst)))) % len(lst)]
 
     # ---- strain / stress / energy
-    reps = 6 if quick else 120
+    reps = 6 if quick else 200
     for dim in (2, 3):
         fields = FIELDS + [f"single:{i}:{j}" for i in range(dim) for j in range(dim)]
         for plane in ("strain", "stress"):
@@ -107,7 +107,7 @@ def plan(tier, seed):
                         cases.append({"kind": "strain", "n": _grid(r, dim, tier), "plane": plane, "field": fld,
                                       "x": xc, "h": cyc(HCLS), "nu": cyc(NUCLS), "rep": rep})
     # ---- element average
-    reps = 16 if quick else 200
+    reps = 16 if quick else 300
     for dim in (2, 3):
         for ndof in (1, 2, 3):
             for off in OFFS:
@@ -115,7 +115,7 @@ def plan(tier, seed):
                     cases.append({"kind": "average", "n": _grid(r, dim, tier), "ndof": ndof, "off": off,
                                   "h": cyc(HCLS), "rep": rep})
     # ---- ElementOperation / NodalOperation transpose: every grid up to the bound x dofs per node x operator form
-    b2, b3 = (3, 2) if quick else (5, 3)
+    b2, b3 = (3, 2) if quick else (6, 4)
     grids = [[i, j, 0] for i in range(1, b2 + 1) for j in range(1, b2 + 1)]
     grids += [[i, j, k] for i in range(1, b3 + 1) for j in range(1, b3 + 1) for k in range(1, b3 + 1)]
     for g in grids:
@@ -123,7 +123,7 @@ def plan(tier, seed):
             for shp in SHAPES:
                 cases.append({"kind": "transpose", "n": list(g), "ndof": ndof, "shape": shp, "rep": 0})
     # ---- thermal load
-    reps = 6 if quick else 100
+    reps = 6 if quick else 160
     for dim, plane in ((2, "strain"), (2, "stress"), (3, "strain"), (3, "stress")):
         for xc in XCLS:
             for nu in NUCLS:
@@ -347,12 +347,16 @@ def case_strain(case, ctx, pym):
     tol_E = 1e-12 * S_E
     shear_energy = float(np.sum(x) * Ve * ((D @ ref_v)[dim:] @ ref_v[dim:]))
     ctx.count("energy_identities_compared")
-    if tol_E <= 1e-6 * abs(uKu) or (uKu == 0.0 and S_E == 0.0) or case["field"] == "rotation":
+    # with a large rigid offset the rounding bound of u'Ku exceeds the energy itself: compared, but not counted
+    disc = bool(tol_E <= 1e-6 * abs(uKu) or (uKu == 0.0 and S_E == 0.0) or case["field"] == "rotation")
+    if disc:
         ctx.count("energy_identities_discriminating")
     energy_mode = "conforming"
-    if not abs(en - uKu) <= tol_E:
+    e_en = abs(en - uKu)
+    if not e_en <= tol_E:
         if mode_1 == "doubled" and stress_mode == "doubled" and abs(en - (uKu + 3 * shear_energy)) <= tol_E:
             energy_mode = "doubled"
+            e_en = abs(en - (uKu + 3 * shear_energy))
         else:
             raise Violation("energy/stress-strain-work-differs-from-uKu", work=en, uKu=uKu, tol=tol_E,
                             predicted_if_shear_doubled=uKu + 3 * shear_energy, strain_mode=mode_1,
@@ -374,7 +378,8 @@ def case_strain(case, ctx, pym):
             "nontrivial": bool(np.any(G)),
             "obs": {"nel": nel, "strain_err_over_tol": worst / tol_e if tol_e > 0 else 0.0,
                     "stress_err_over_tol": (ds_stated if stress_mode == "conforming" else ds_doubled) / tol_s if tol_s > 0 else 0.0,
-                    "energy_err_over_tol": abs(en - uKu - (3 * shear_energy if energy_mode == "doubled" else 0.0)) / tol_E if tol_E > 0 else 0.0, "E": E, "nu": nu,
+                    "energy_err_over_tol": e_en / tol_E if tol_E > 0 else 0.0, "energy_discriminating": disc,
+                    "E": E, "nu": nu,
                     "modes": modes}}
 
 
